@@ -36,6 +36,7 @@ import (
 	"math/rand"
 	"os"
 	"sort"
+	"strconv"
 	"strings"
 	"sync"
 	"time"
@@ -85,7 +86,7 @@ var palette = map[string][]pchar{
 	"dg": same("0", "1", "2", "5", "7", "9"),
 	"us": same("_"),
 	"st": same("*"),
-	"sp": same(" ", ":", ",", "(", ")", "=", "@", "#", "|", "[", "]", "!", "\t", "\n", "{", "}", "+", "~", "&", "<", ">", ";", "%", "$", "^", "?"),
+	"sp": same(" ", ":", ",", "(", ")", "=", "@", "#", "|", "[", "]", "!", "{", "}", "+", "~", "&", "<", ">", ";", "%", "$", "^", "?"),
 	"dd": same("-", "."),
 	"sl": same("/"),
 	"dq": same("\""),
@@ -126,6 +127,47 @@ var palette = map[string][]pchar{
 	// 4-byte runes that are neither letters nor numbers: emoji, musical symbol, regional indicator, language tag, skin tone
 	// modifier, Aegean word separator
 	"s4": same("\U0001f600", "\U0001f4a9", "\U0001d11e", "\U0001f680", "\U0001f1e6", "\U000e0001", "\U0001f3fb", "\U00010100"),
+	// control bytes: one class per reason some literal spelling could treat the byte specially (Tokenize.tla); cr, lf, z0 and
+	// pu are single-member classes (the table gives their code points), ws and cc list ALL their members
+	"cr": same("\r"),
+	"lf": same("\n"),
+	"ws": same("\t", "\v", "\f"),
+	"z0": same("\x00"),
+	"cc": same("\x01", "\x02", "\x03", "\x04", "\x05", "\x06", "\a", "\b", "\x0e", "\x0f", "\x10", "\x11", "\x12", "\x13", "\x14",
+		"\x15", "\x16", "\x17", "\x18", "\x19", "\x1a", "\x1b", "\x1c", "\x1d", "\x1e", "\x1f", "\x7f"),
+	// U+E000, the rune the SeqQL lexer writes for an unescaped '*'
+	"pu": same("\ue000"),
+}
+
+// codesOf: the spellings strconv.UnquoteChar accepts behind a backslash for the character r (concretisation of the
+// specification's unit "escape code of character e"; checkPalette verifies each of them with strconv itself). \x and octal
+// are used for ASCII only: for larger values they denote a byte in Go, which the model does not speak about.
+// The first entry is the customary one (the mnemonic if there is one).
+func codesOf(r rune) []string {
+	var out []string
+	switch r {
+	case '\a':
+		out = append(out, "a")
+	case '\b':
+		out = append(out, "b")
+	case '\f':
+		out = append(out, "f")
+	case '\n':
+		out = append(out, "n")
+	case '\r':
+		out = append(out, "r")
+	case '\t':
+		out = append(out, "t")
+	case '\v':
+		out = append(out, "v")
+	}
+	if r < 0x80 {
+		out = append(out, fmt.Sprintf("x%02x", r), fmt.Sprintf("x%02X", r), fmt.Sprintf("%03o", r))
+	}
+	if r <= 0xffff {
+		out = append(out, fmt.Sprintf("u%04x", r), fmt.Sprintf("u%04X", r))
+	}
+	return append(out, fmt.Sprintf("U%08x", r))
 }
 
 type table struct {
@@ -136,6 +178,8 @@ type table struct {
 	Bare  []string          `json:"bare"`
 	Ch    map[string]string `json:"ch"`
 	Big   int               `json:"big"`
+	Ctl   []string          `json:"ctl"` // classes of ASCII control bytes
+	CP    map[string]int    `json:"cp"`  // classes that stand for exactly one code point
 }
 
 func in(xs []string, x string) bool {
@@ -150,6 +194,9 @@ func in(xs []string, x string) bool {
 // checkPalette makes sure every palette member really has the attributes the specification's class table states
 // (this guards the palette, it decides nothing about seq-db).
 func checkPalette(t *table) error {
+	if len(t.Ctl) == 0 || len(t.CP) == 0 {
+		return fmt.Errorf("class table without control classes / code points")
+	}
 	for cls, w := range t.W {
 		ps, ok := palette[cls]
 		if !ok || len(ps) == 0 {
@@ -192,6 +239,26 @@ func checkPalette(t *table) error {
 			}
 			if w == 1 && p.raw[0] >= 0x80 {
 				return fmt.Errorf("class %s: %q not ASCII", cls, p.raw)
+			}
+			if in(t.Ctl, cls) != unicode.IsControl(r) {
+				return fmt.Errorf("class %s: %q control=%v", cls, p.raw, unicode.IsControl(r))
+			}
+			if cp, ok := t.CP[cls]; ok && rune(cp) != r {
+				return fmt.Errorf("class %s must be U+%04X", cls, cp)
+			}
+			for c2, cp := range t.CP { // a one-rune class owns its rune
+				if c2 != cls && rune(cp) == r {
+					return fmt.Errorf("class %s: %q belongs to class %s", cls, p.raw, c2)
+				}
+			}
+			if in(t.Ctl, cls) && (cls == "ws") != (unicode.IsSpace(r) && r != '\r' && r != '\n') {
+				return fmt.Errorf("class %s: %q space=%v", cls, p.raw, unicode.IsSpace(r))
+			}
+			for _, code := range codesOf(r) {
+				got, _, tail, err := strconv.UnquoteChar("\\"+code, '"')
+				if err != nil || tail != "" || got != r || strings.ContainsAny(code, "\"'`\\*") {
+					return fmt.Errorf("class %s: \\%s is not a spelling of %q", cls, code, p.raw)
+				}
 			}
 		}
 	}
@@ -380,6 +447,7 @@ func (c *Case) mappingAgrees(m seq.Mapping) bool {
 
 type concrete struct {
 	chars []pchar
+	codes []string // per character: the escape code (what follows the backslash) used where the case spells it escaped
 }
 
 func (cc *concrete) value() []byte {
@@ -399,6 +467,8 @@ func (cc *concrete) atom(dst []byte, a Atom) []byte {
 	switch {
 	case a.F == "x":
 		return append(dst, "\ufffd"...)
+	case a.B == 0 && a.F == "c":
+		return append(dst, cc.codes[a.E-1]...)
 	case a.B == 0 && a.F == "r":
 		return append(dst, p.raw...)
 	case a.B == 0 && a.F == "l":
@@ -427,20 +497,35 @@ func pick(c *Case, seed int64, n, rep int) *concrete {
 		ps := palette[cls]
 		cc.chars = append(cc.chars, ps[r.Intn(len(ps))])
 	}
+	// escape codes: the customary spelling in the first rep, a drawn one afterwards (drawn after the characters)
+	for i, p := range cc.chars {
+		code := ""
+		if c.Val[i] != "iv" {
+			ru, _ := utf8.DecodeRuneInString(p.raw)
+			cs := codesOf(ru)
+			code = cs[0]
+			if rep > 0 {
+				code = cs[r.Intn(len(cs))]
+			}
+		}
+		cc.codes = append(cc.codes, code)
+	}
 	return cc
 }
 
 // jsonString: a JSON string literal for arbitrary bytes (invalid UTF-8 is passed through as the ES bulk API receives it)
-func jsonString(dst, v []byte) []byte {
+func jsonString(dst, v []byte) []byte { return jsonStringU(dst, v, false) }
+
+// jsonStringU: control bytes by their two-character JSON escapes where JSON has one (\b \f \n \r \t), or all of them as \u00XX
+func jsonStringU(dst, v []byte, allU bool) []byte {
 	dst = append(dst, '"')
 	for _, b := range v {
+		short := strings.IndexByte("\b\f\n\r\t", b)
 		switch {
 		case b == '"' || b == '\\':
 			dst = append(dst, '\\', b)
-		case b == '\n':
-			dst = append(dst, '\\', 'n')
-		case b == '\t':
-			dst = append(dst, '\\', 't')
+		case short >= 0 && !allU:
+			dst = append(dst, '\\', "bfnrt"[short])
 		case b < 0x20:
 			dst = append(dst, fmt.Sprintf("\\u%04x", b)...)
 		default:
@@ -806,7 +891,7 @@ func (r *runner) runCase(n int, c *Case, st *stats) []map[string]any {
 	for rep := 0; rep < r.reps; rep++ {
 		cc := pick(c, r.seed, n, rep)
 		val := cc.value()
-		leaf := jsonString(nil, val)
+		leaf := jsonStringU(nil, val, rep%2 == 1)
 		// an all-digit value may equally arrive as a JSON number: same content
 		if rep%2 == 1 && len(val) > 0 && (val[0] != '0' || len(val) == 1) {
 			num := true
@@ -1011,7 +1096,7 @@ func (r *runner) e2eIngest(n int, c *Case, cc *concrete, m seq.Mapping, ing *bul
 		}
 		for i, rd := range p.Q {
 			// double quotes always, one more style in rotation
-			if !(rd.S == "dq" || i == 1+(n+pi)%3) {
+			if !(rd.S == "dq" || i == 1+(n+pi)%max(len(p.Q)-1, 1)) {
 				continue
 			}
 			q := p.Title + ":" + string(cc.atoms(rd.U)) + ` and Uid:"` + uid + `"`
